@@ -1222,28 +1222,6 @@ Qed.
 
 (** ** Theorem 2: prefix_view *)
 
-(** Side condition of the reverse iterator with a nil end bound: no stored key of the translated
-    range [p, cpIncr p) lacks the prefix.  (It always holds when [p] does not end in 0xFF or
-    consists of 0xFF only, see [riter_guard_exact]; without it the statement is false, see
-    [priter_refuted].) *)
-Definition riter_guard (p : bytes) (m : kvs) : Prop :=
-  match cpIncr p with
-  | None => wf_keys m
-  | Some q =>
-      Forall (fun e => ble p (fst e) = true -> blt (fst e) q = true -> is_prefix p (fst e) = true) m
-  end.
-
-Definition op_guard (p : bytes) (m : kvs) (op : kvop) : Prop :=
-  match op with KRIter _ None => riter_guard p m | _ => True end.
-
-Lemma riter_guard_exact p m :
-  wf_keys m -> cpIncr p = None \/ last p 0 < 255 -> riter_guard p m.
-Proof.
-  intros Hwf H. unfold riter_guard. destruct (cpIncr p) as [q|] eqn:E; [|exact Hwf].
-  destruct H as [H|H]; [discriminate|]. eapply Forall_impl; [|exact Hwf].
-  intros [k v] Hk H1 H2. simpl in *. apply (cpIncr_spec_exact p q k E H Hk). auto.
-Qed.
-
 Lemma bad_bound_app p a : p <> [] -> bad_bound (Some (p ++ a)) = false.
 Proof. destruct p; [congruence|reflexivity]. Qed.
 
@@ -1281,7 +1259,7 @@ Proof.
 Qed.
 
 Lemma range_all_prefixed p m start stop :
-  p <> [] -> (stop = None -> riter_guard p m) ->
+  p <> [] -> (stop = None -> wf_keys m) ->
   Forall (fun e => pf p e = true) (kv_iter m (Some (p ++ key_of start)) (pend_of p stop)).
 Proof.
   intros Hp Hg. unfold kv_iter. apply Forall_forall. intros [k v] Hin.
@@ -1290,15 +1268,17 @@ Proof.
   unfold in_range in HR. apply andb_true_iff in HR. destruct HR as [_ HR].
   destruct stop as [e|]; simpl in HR.
   - eapply between_prefix; eauto.
-  - specialize (Hg eq_refl). unfold riter_guard in Hg. destruct (cpIncr p) as [q|] eqn:E.
-    + rewrite Forall_forall in Hg. apply (Hg _ Hin); assumption.
-    + unfold wf_keys in Hg. rewrite Forall_forall in Hg.
-      apply (cpIncr_spec_none p k Hp E (Hg _ Hin)). exact Hge.
+  - specialize (Hg eq_refl). unfold wf_keys in Hg. rewrite Forall_forall in Hg.
+    specialize (Hg _ Hin). simpl in Hg. destruct (cpIncr p) as [q|] eqn:E.
+    + apply (cpIncr_spec p q k E Hg). auto.
+    + apply (cpIncr_spec_none p k Hp E Hg). exact Hge.
 Qed.
 
+(** the reverse iterator; well-formedness of the stored keys (bytes < 256) is only used for a nil
+    end bound, where the upper bound [cpIncr p] comes from stripping 0xFF bytes *)
 Theorem priter_spec p m start stop :
   p <> [] -> sorted m -> bad_bound start || bad_bound stop = false ->
-  (stop = None -> riter_guard p m) ->
+  (stop = None -> wf_keys m) ->
   priter kv_step p m start stop = (m, OPairs (kv_riter (view p m) start stop)).
 Proof.
   intros Hp Hs Hb Hg. unfold priter, piter_gen. rewrite Hb, (pend_match p stop Hp).
@@ -1313,7 +1293,7 @@ Proof.
 Qed.
 
 Theorem prefix_view p m op :
-  p <> [] -> sorted m -> op_guard p m op ->
+  p <> [] -> sorted m -> wf_keys m ->
   kv_step (view p m) op =
     (view p (fst (prefix_step kv_step p m op)), snd (prefix_step kv_step p m op)) /\
   outside p (fst (prefix_step kv_step p m op)) = outside p m /\
@@ -1339,46 +1319,10 @@ Proof.
     + rewrite piter_spec by assumption. auto.
   - cbn [kv_step]. destruct (bad_bound a || bad_bound b) eqn:Eb.
     + unfold priter, piter_gen. rewrite Eb. auto.
-    + rewrite priter_spec; auto. intros ->. exact Hg.
+    + rewrite priter_spec; auto.
   - rewrite batch_spec, batch_prog_prefix. cbn [fst snd]. destruct w; [|auto].
     destruct (view_fold p (flat_map bop_accept ops1) m Hs (accepted_nonempty ops1)) as [H1 [H2 H3]].
     rewrite H1. auto.
-Qed.
-
-(** The reverse iterator of a namespace whose prefix ends in 0xFF: [cpIncr] keeps the length,
-    so the translated range [p, cpIncr p) = [[115;255], [116;0]) contains the foreign key [116];
-    the reverse source sequence starts there, [newPrefixIterator] sees a key without the prefix
-    and the iterator is empty although the namespace holds [5].  Confirmed on the Go code
-    (PrefixDB over MemDB and over GoLevelDB). *)
-Theorem priter_refuted :
-  exists p m,
-    p <> [] /\ well_formed p /\ store_inv m /\ wf_keys m /\
-    kv_step (view p m) (KRIter None None) = (view p m, OPairs [([5], [1])]) /\
-    prefix_step kv_step p m (KRIter None None) = (m, OPairs []) /\
-    prefix_step mem_step p m (KRIter None None) = (m, OPairs []) /\
-    prefix_step ldb_step p m (KRIter None None) = (m, OPairs []).
-Proof.
-  exists [115; 255], [([115; 255; 5], [1]); ([116], [3])].
-  split; [discriminate|]. split; [repeat constructor|].
-  split; [split; [simpl; repeat constructor; apply blt_true; reflexivity
-                 | repeat constructor; simpl; discriminate]|].
-  split; [repeat constructor|]. vm_compute. auto.
-Qed.
-
-(** ... and a write through a disjoint sibling namespace ([116] is not a prefix of
-    [115;255;255] nor conversely) changes what the namespace [115;255;255] shows *)
-Theorem prefix_isolation_refuted :
-  exists p p' m k v,
-    is_prefix p p' = false /\ is_prefix p' p = false /\ store_inv m /\
-    let m' := fst (prefix_step kv_step p' m (KSet k (Some v))) in
-    view p m' = view p m /\
-    snd (prefix_step kv_step p m (KRIter None None)) = OPairs [([7], [2])] /\
-    snd (prefix_step kv_step p m' (KRIter None None)) = OPairs [].
-Proof.
-  exists [115; 255; 255], [116], [([115; 255; 255; 7], [2])], [0], [9].
-  split; [reflexivity|]. split; [reflexivity|].
-  split; [split; [simpl; auto | repeat constructor; simpl; discriminate]|].
-  vm_compute. auto.
 Qed.
 
 (** PrefixDB over the MemDB / GoLevelDB models = PrefixDB over the spec *)
@@ -1441,4 +1385,69 @@ Proof.
   - apply Hit.
   - rewrite batch_prog_prefix. cbn [fst]. destruct w; [|exact Hm].
     apply fold_apply_inv; [|exact Hm]. apply pfx_ops_nonempty, accepted_nonempty.
+Qed.
+
+(** ** Well-formedness of the stored keys (every byte < 256) is preserved by well-formed operations *)
+
+Definition bop_wf (o : bop) : Prop := well_formed (snd (fst o)).
+Definition op_wf (op : kvop) : Prop :=
+  match op with
+  | KSet k _ => well_formed k
+  | KBatch ops1 _ _ => Forall bop_wf ops1
+  | _ => True
+  end.
+
+Lemma accepted_wf ops :
+  Forall bop_wf ops -> Forall (fun o => well_formed (op_key o)) (flat_map bop_accept ops).
+Proof.
+  intros H. induction H as [|[[s k] v] ops Hx Hl IH]; simpl; [constructor|].
+  apply Forall_app. split; [|exact IH]. unfold bop_wf in Hx. simpl in Hx.
+  destruct (is_empty k); [constructor|]. destruct s; [destruct v|]; repeat constructor; exact Hx.
+Qed.
+
+Lemma fold_apply_wf ops : forall m,
+  Forall (fun o => well_formed (op_key o)) ops -> wf_keys m ->
+  wf_keys (fold_left apply_op ops m).
+Proof.
+  induction ops as [|o ops IH]; intros m Ho Hm; simpl; [exact Hm|].
+  inversion Ho as [|? ? Hk Ho']; subst. apply IH; [exact Ho'|].
+  destruct o as [k v|k]; simpl in *; [apply kv_Forall_ins|apply kv_Forall_del]; assumption.
+Qed.
+
+Theorem kv_step_wf m op : op_wf op -> wf_keys m -> wf_keys (fst (kv_step m op)).
+Proof.
+  intros Ho Hm. destruct op as [k|k|k v|k|a b|a b|ops1 w ops2].
+  - simpl. destruct (is_empty k); exact Hm.
+  - simpl. destruct (is_empty k); exact Hm.
+  - simpl. destruct (is_empty k); [exact Hm|]. destruct v as [v'|]; [|exact Hm].
+    apply kv_Forall_ins; assumption.
+  - simpl. destruct (is_empty k); [exact Hm|]. apply kv_Forall_del; assumption.
+  - simpl. destruct (bad_bound a || bad_bound b); exact Hm.
+  - simpl. destruct (bad_bound a || bad_bound b); exact Hm.
+  - rewrite batch_spec. simpl. destruct w; [|exact Hm].
+    apply fold_apply_wf; [apply accepted_wf; exact Ho|exact Hm].
+Qed.
+
+Theorem prefix_step_wf p m op :
+  well_formed p -> op_wf op -> wf_keys m -> wf_keys (fst (prefix_step kv_step p m op)).
+Proof.
+  intros Hp Ho Hm.
+  assert (forall (r : bool) a b, wf_keys (fst (piter_gen kv_step p r m a b))) as Hit.
+  { intros r a b. unfold piter_gen. destruct (bad_bound a || bad_bound b); [exact Hm|].
+    destruct (match b with None => if cpIncr_panics p then None else Some (cpIncr p)
+                         | Some e => Some (Some (prefixed p e)) end) as [pend|]; [|exact Hm].
+    pose proof (kv_step_iter_fst m (Some (prefixed p (key_of a))) pend r) as Hf.
+    destruct (kv_step m (if r then KRIter (Some (prefixed p (key_of a))) pend
+                         else KIter (Some (prefixed p (key_of a))) pend)) as [m' o].
+    simpl in Hf. subst m'. destruct o; exact Hm. }
+  destruct op as [k|k|k v|k|a b|a b|ops1 w ops2]; cbn [prefix_step];
+    unfold pget, phas, pset, pdelete;
+    try (destruct (is_empty k); [exact Hm|]; apply kv_step_wf; [|exact Hm]; simpl; auto).
+  - apply Forall_app. split; assumption.
+  - apply Hit.
+  - apply Hit.
+  - rewrite batch_prog_prefix. cbn [fst]. destruct w; [|exact Hm].
+    apply fold_apply_wf; [|exact Hm]. rewrite Forall_map.
+    eapply Forall_impl; [|apply accepted_wf; exact Ho].
+    intros [k v|k] Hk; simpl in *; apply Forall_app; split; assumption.
 Qed.
